@@ -362,6 +362,22 @@ def app_nontrivial(i, g):
     return ok(i) and ok(g)
 
 
+def _uses_ops(cmds, ops):
+    for c in cmds:
+        if c[0] in ops or (c[0] == 15 and (_uses_ops(c[2], ops) or _uses_ops(c[3], ops))):
+            return True
+    return False
+
+
+def app_case_supported(case):
+    """scmds 19-21 (type-ahead, explicit InputHandler ask/wait) are not interpreted by the GLib branch of screen_worker.py"""
+    ops = {19, 20, 21}
+    for sp in case[1]:
+        if any(_uses_ops(l, ops) for l in (sp[1], sp[2], sp[3], sp[5][0])) or any(_uses_ops(e[1], ops) for e in sp[4]):
+            return False
+    return not any(a[0] == 0 and _uses_ops(a[1:], ops) for a in case[5])
+
+
 def gen_app_cases(rng, n):
     cases = []
     for k in range(n):
@@ -370,7 +386,7 @@ def gen_app_cases(rng, n):
     for prop in ("C04", "C05", "C08", "C06", "C07", "C18"):
         for k in range(n // 10):
             cases.append(screen_gen.gen_focus_case(rng, prop))
-    return [c[:6] for c in cases]
+    return [c[:6] for c in cases if app_case_supported(c)]
 
 
 def run_apps(chk, tier):
